@@ -125,10 +125,10 @@ def explore(ctx):
                              'payload': {'query': q, 'gap_s': gap, 'lines': n, 'first_output_at': out[0][0] if out else None, 'first_sent_at': sent[0][0]}})
         nontrivial += 1
     # 3. fast producer, stalled consumer, far more rows than the channel capacity
-    for n in ((5000,) if quick else (5000, 200000)):
+    for n in ((5000, 30000) if quick else (5000, 30000, 200000)):
         q = '* | json | fields id'
         data = b''.join(b'{"id": %d}\n' % i for i in range(n))
-        out, sent, rc, err = run_scheduled(q, [(data, 0)], stall_before_read=0.4 if n < 10000 else 1.0, timeout=120)
+        out, sent, rc, err = run_scheduled(q, [(data, 0)], stall_before_read=0.4 if n < 10000 else 1.0, timeout=120)   # the big ones fill the pipe AND the channel while the consumer stalls
         evaluations += 1
         got = [l for _t, l in out]
         want = [b'{"id":%d}' % i for i in range(n)]
